@@ -217,6 +217,8 @@ func lifecycleCase(r *rand.Rand, idx int) caseOut {
 		t           uint64
 	}
 	var metas []stepMeta
+	var expAfter []M
+	snap := func() { b, _ := json.Marshal(exp.doc()); var m M; json.Unmarshal(b, &m); expAfter = append(expAfter, m) }
 	// ---- create
 	keys := randDocKeys(r, "key", 1+r.Intn(3))
 	svcs := []svcSpec{{"svc1", "T1", "https://example.com/one"}}
@@ -264,6 +266,7 @@ func lifecycleCase(r *rand.Rand, idx int) caseOut {
 		steps = append(steps, lifeStep{"create", b, err})
 	}
 	metas = append(metas, stepMeta{0, 0, t})
+	snap()
 	if steps[0].bytes != nil {
 		var req M
 		json.Unmarshal(steps[0].bytes, &req)
@@ -414,6 +417,7 @@ func lifecycleCase(r *rand.Rand, idx int) caseOut {
 				steps = append(steps, lifeStep{"update", b, err})
 			}
 			metas = append(metas, stepMeta{from, until, t})
+			snap()
 			updKey = next
 		}
 	}
@@ -459,6 +463,7 @@ func lifecycleCase(r *rand.Rand, idx int) caseOut {
 			steps = append(steps, lifeStep{"recover", b, err})
 		}
 		metas = append(metas, stepMeta{0, 0, t})
+		snap()
 		recKey, updKey = nextRec, nextUpd
 	}
 	doUpdates(r.Intn(3))
@@ -480,6 +485,7 @@ func lifecycleCase(r *rand.Rand, idx int) caseOut {
 			steps = append(steps, lifeStep{"deactivate", b, err})
 		}
 		metas = append(metas, stepMeta{0, 0, t})
+		expAfter = append(expAfter, M{})
 	}
 	// ---- run through the real parser and applier; anchored form
 	parser := operationparser.New(cfg)
@@ -548,11 +554,20 @@ func lifecycleCase(r *rand.Rand, idx int) caseOut {
 	rec := hc.jsonRecord()
 	rec["expected_document"], rec["expected_update_commitment"], rec["expected_recovery_commitment"] = expDocJSON, expUpd, expRec
 	rec["notes"] = why
+	rec["expected_document_after_each_step"] = expAfter
 	return caseOut{
-		Coq: fmt.Sprintf("(mk_c08 %s %s %s %s %s %s %s %s %s)", hc.coq(), cObj(normJSON(expDocJSON).(map[string]interface{})), cStr(expUpd), cStr(expRec),
+		Coq: fmt.Sprintf("(mk_c08 %s %s %s %s %s %s %s %s %s %s)", hc.coq(), expDocsCoq(expAfter), cObj(normJSON(expDocJSON).(map[string]interface{})), cStr(expUpd), cStr(expRec),
 			cBool(deactivate_), cJSON(normJSON(origin)), cBool(allBuilt), cBool(allParsed), cBool(anchoredOK)),
 		Rec: rec, Label: label, NonTri: fmt.Sprintf("%x", h[:8]),
 	}
+}
+
+func expDocsCoq(ds []M) string {
+	items := make([]string, len(ds))
+	for i, d := range ds {
+		items[i] = cObj(normJSON(d).(map[string]interface{}))
+	}
+	return cList(items)
 }
 
 // viewFromBytes fills the label view of a builder-produced (valid) request from its own JSON.
